@@ -34,7 +34,10 @@
       (C04's `keyswitch_noise_closed` is about `KS.gadgetProductR`; `BlindRot.gadgetProductR` is tied to the code by `br_eval`
       / `br_core` but not proved equal to it) — open.  The drift `|b̃ + ⟨ã,s⟩ − 2N·phase/Q| ≤ 1/2 + (3/2)‖s‖₁ + …` of the
       modulus switch (the "discretisation step") is PROBED (`blindrot_lookup`), not proved.
-      `InitTestPolynomial`'s float pipeline (`scaleUp`) is TIED (`testpoly`); the theorems are about integer tables `y`.
+      `InitTestPolynomial`'s float pipeline is modelled in exact arithmetic (`scaleUpBits`, tied by `testpoly` incl. 55–61-bit
+      primes and scales up to `Q/4`): `testpoly_limbs_consistent` (all limbs are residues of one integer, all inputs),
+      `testpoly_exact`, `testpoly_exact_big` (that integer is the exact `⌊scale·|g|+½⌋` when nothing is rounded); otherwise it is
+      the IEEE-rounded value (the API's `scale` is a float64).  The look-up theorems are about integer tables `y`.
   * "the generated keys contain exactly the Galois and RGSW keys the algorithm requests": `brk_keys_requested_subset`
     (requested ⊆ generated, all `N`, all masks); "generated ⊆ requested by some input" and "each RGSW key at most once"
     are PROBED (`brk_keys_exact`, statistics) only.
@@ -53,6 +56,7 @@ import Lattigo.Props.C20Noise
 import Lattigo.Props.C20Stack
 import Lattigo.Proofs.RGSWNoise
 import Lattigo.Proofs.BlindRotE2E
+import Lattigo.Proofs.BlindRotTestPoly
 
 namespace Lattigo.Props.C20
 open Lattigo Lattigo.RGSW
@@ -463,6 +467,44 @@ example : lookup 8 (testPolyInts 8 fun k => 10 * k + 1) 5 = -(10 * (5 - 8) + 1) 
     lookup 8 (testPolyInts 8 fun k => 10 * k + 1) (-7) = -(10 * 1 + 1) ∧
     lookup 8 (testPolyInts 8 fun k => 10 * k + 1) 13 = 10 * (-3) + 1 := by decide
 
+/-- `testpoly_limbs_consistent`: what `InitTestPolynomial` stores in limb `q` of a coefficient (`scaleUpBits`: the float64
+    pipeline `fl(fl(scale·|g|) + 0.5)` truncated, in exact arithmetic — the function the driver's `testpoly` handler
+    evaluates) is, for EVERY modulus `q > 0`, the residue of ONE integer `X = scaleUpAbs` (of `−X` for a negative value): the
+    limbs are CRT-consistent whatever the size of the primes and of the scale. -/
+theorem testpoly_limbs_consistent (v s Q : Nat) (hQ : 0 < Q) :
+    (isNegBits v = false → scaleUpBits v s Q = scaleUpAbs v s % Q) ∧
+    (isNegBits v = true → (scaleUpBits v s Q + scaleUpAbs v s) % Q = 0 ∧ 0 < scaleUpBits v s Q ∧ scaleUpBits v s Q ≤ Q) :=
+  scaleUpBits_residue v s Q hQ
+
+/-- `testpoly_exact`: `X` is the EXACT `⌊scale·|value| + 1/2⌋` (rational arithmetic, `roundHalfUp`) whenever nothing is
+    rounded on the way: the product of the two (odd) significands and the significand of the exact sum with `1/2` fit 53
+    bits.  (Otherwise `X` is the IEEE-rounded `fl(fl(scale·|value|)+0.5)`: `scale` is a `float64` in the API.) -/
+theorem testpoly_exact (v s : Nat)
+    (h1 : (decodeMag s).1 * (decodeMag v).1 < 2 ^ 53)
+    (h2 : (addHalfExact ((decodeMag s).1 * (decodeMag v).1, (decodeMag s).2 + (decodeMag v).2)).1 < 2 ^ 53) :
+    scaleUpAbs v s = roundHalfUp ((decodeMag s).1 * (decodeMag v).1) ((decodeMag s).2 + (decodeMag v).2) :=
+  scaleUpAbs_exact v s h1 h2
+
+/-- `testpoly_exact` for LARGE scales: product significand below `2^53` and product exponent `k ≥ 1` (`scale·|value|` an even
+    integer `m·2^k`: e.g. `|value| ∈ {1, 1/2, 3/4}` and any scale `≥ 2^54`, the regime `scale ≈ Q/4` of multi-limb `Q`):
+    the stored integer is the product itself. -/
+theorem testpoly_exact_big (v s k : Nat) (hk : 1 ≤ k)
+    (h1 : (decodeMag s).1 * (decodeMag v).1 < 2 ^ 53) (he : (decodeMag s).2 + (decodeMag v).2 = (k : Int)) :
+    scaleUpAbs v s = (decodeMag s).1 * (decodeMag v).1 * 2 ^ k :=
+  scaleUpAbs_exact_big v s k hk h1 he
+
+/-- non-vacuity (instances FROM the theorems): `scale = 10^15`, `value = −1`: `X = 10^15`, limb modulo a 55-bit prime `q`
+    is `q − 10^15`; `scale = 5·2^100`, `value = −0.75`: `X = 15·2^98`; and `scale = 10^15`, `value = 0.5`: `X = 5·10^14`. -/
+example : scaleUpAbs 13830554455654793216 4831355200913801216 = 10 ^ 15
+    ∧ scaleUpBits 13830554455654793216 4831355200913801216 36028797018963841 = 36028797018963841 - 10 ^ 15
+    ∧ scaleUpAbs 13828302655841107968 5067675480698650624 = 15 * 2 ^ 98
+    ∧ scaleUpAbs 4602678819172646912 4831355200913801216 = 5 * 10 ^ 14 := by
+  refine ⟨?_, ?_, ?_, ?_⟩
+  · rw [testpoly_exact _ _ (by decide +kernel) (by decide +kernel)]; decide +kernel
+  · decide +kernel
+  · rw [testpoly_exact_big _ _ 98 (by norm_num) (by decide +kernel) (by decide +kernel)]; decide +kernel
+  · rw [testpoly_exact _ _ (by decide +kernel) (by decide +kernel)]; decide +kernel
+
 /-- **blindrot_end_to_end** (`Z_Q[X]/(X^N+1)` on `RPoly`, `N = 2^(k+1) ≥ 4`).  For every LWE sample, every slot list and
 every mask `a` the model's `Evaluate` derives, `BlindRotateCore` maps an accumulator of phase `φ_{2N−5}(F)·X^{(2N−5)b} + n₀`
 (`evalSlot`'s `(φ_{2N−5}(F·X^b), 0)`) to one of phase `F·X^{b + ⟨a,s⟩} + noise`, `noise = noiseRunG …` the accumulated
@@ -608,3 +650,6 @@ end Lattigo.Props.C20
 #print axioms Lattigo.Props.C20.blindrot_lookup_all
 #print axioms Lattigo.Props.C20.blindrot_end_to_end
 #print axioms Lattigo.Props.C20.blindrot_evalSlot_phase
+#print axioms Lattigo.Props.C20.testpoly_limbs_consistent
+#print axioms Lattigo.Props.C20.testpoly_exact
+#print axioms Lattigo.Props.C20.testpoly_exact_big
